@@ -73,6 +73,11 @@ def write_evidence(prop, tier, seed, spec, results, wall, status, confirmed, kno
             "per_harness": per_h,
             "covers": covers,
             "paths_not_evaluable": noteval,
+            "float_twin": {"agree": sum(d.get("float_twin_agree", 0) for d in results),
+                           "differ": sum(d.get("float_twin_differ", 0) for d in results),
+                           "differ_samples": [x for d in results for x in d.get("float_differ_samples", [])][:3],
+                           "note": "paths whose model point is exactly representable as floats were also run with "
+                                   "float costs; informational, IEEE rounding is outside the claim"},
             "vacuity": vac,
             "cross_checks": xcheck or {"note": "second engine / second solver run in the thorough tier only"},
             "jobs": len(results),
